@@ -626,9 +626,26 @@ func (vc *VC) constArray(arrSort, v string) string {
 	}
 	n := vc.freshConst("zeroarr", arrSort)
 	vc.strLits[key] = n
+	// index sort = first argument of (Array K V)
 	idx := "Int"
-	if vc.isBV() {
-		idx = "(_ BitVec 64)"
+	if strings.HasPrefix(arrSort, "(Array ") {
+		rest := arrSort[len("(Array "):]
+		if strings.HasPrefix(rest, "(") {
+			d := 0
+			for i := 0; i < len(rest); i++ {
+				if rest[i] == '(' {
+					d++
+				} else if rest[i] == ')' {
+					d--
+					if d == 0 {
+						idx = rest[:i+1]
+						break
+					}
+				}
+			}
+		} else if j := strings.Index(rest, " "); j > 0 {
+			idx = rest[:j]
+		}
 	}
 	vc.assume(fmt.Sprintf("(forall ((i %s)) (! (= (select %s i) %s) :pattern ((select %s i))))", idx, n, v, n))
 	return n
